@@ -68,8 +68,8 @@ def gen_cases(ctx):
             for pos, (t, k, c) in enumerate(seq):
                 doc.append(elem(k, pos + 1 if c == 'call' else '__absent__') if t == 'e' else k)
             rot += 1
-            # quick, longest batches: the four basic flavours for every document, the other flavours take turns
-            for disp in (DISPS if (n < 3 or not ctx.quick) else DISPS[:4] + [DISPS[4 + rot % (len(DISPS) - 4)]]):
+            # longest batches of the tier: the four basic flavours for every document, the other flavours take turns
+            for disp in (DISPS if n < ctx.pick(3, 4) else DISPS[:4] + [DISPS[4 + rot % (len(DISPS) - 4)]]):
                 yield dict(part='a', disp=disp, mbs=None, doc=doc)
     # (b) all id assignments, one failing kind at each position (or none)
     fails = [None] + [k for k in KINDS if k[0] in ('unknown', 'nobind', 'perr', 'boom')]
@@ -79,7 +79,7 @@ def gen_cases(ctx):
                 for pos in (range(n) if fk else [0]):
                     doc = [elem(fk if (fk and i == pos) else KINDS[0], ids[i]) for i in range(n)]
                     rot += 1
-                    for disp in (DISPS if (n < 3 or not ctx.quick) else DISPS[:4] + [DISPS[4 + rot % (len(DISPS) - 4)]]):
+                    for disp in (DISPS if n < ctx.pick(3, 4) else DISPS[:4] + [DISPS[4 + rot % (len(DISPS) - 4)]]):
                         yield dict(part='b', disp=disp, mbs=None, doc=doc)
     # (d) equal-valued arguments of different JSON types in one batch (1 / 1.0 / true, 0 / 0.0 / false, "1", nested): each element
     #     must be executed with - and answered from - its OWN arguments
